@@ -369,7 +369,32 @@ def family_narrow(m, tier, add_bench, open_mod, close_mod):
     close_mod(m, 0)
 
 
+def family_degenerate(m, tier, add_bench, open_mod, close_mod):
+    """Degenerate items (no argument, no type, no constant, a group with nothing in it) placed AHEAD of ordinary
+    siblings in one module: whatever a walk over the siblings keeps from one node to the next (a path buffer, merged
+    options, an `is last` flag, a cached name) meets an ordinary item right after a degenerate one."""
+    top = "deg"
+    m.families[top] = "degenerate"
+    path = open_mod(m, [], 0, top)
+    add_bench(m, path, 4, "e_args", args="empty")
+    add_bench(m, path, 4, "after_empty_args")
+    add_bench(m, path, 4, "e_types", types=[])
+    add_bench(m, path, 4, "after_empty_types", args="strs")
+    add_bench(m, path, 4, "e_consts", consts=[])
+    add_bench(m, path, 4, "after_empty_consts", types=["TA", "TB"])
+    g = open_mod(m, path, 4, "hollow", group={"options": [("ignore", None), ("items_count", "3u32")]})
+    close_mod(m, 4)
+    add_bench(m, path, 4, "after_hollow_group", form="bencher")
+    sub = open_mod(m, path, 4, "sub")
+    add_bench(m, sub, 8, "e_args", args="empty", options=[("sample_count", "7")])
+    add_bench(m, sub, 8, "last", options=[("sample_size", "2")])
+    close_mod(m, 4)
+    add_bench(m, path, 4, "e_tail", args="empty")
+    close_mod(m, 0)
+
+
 def more_families(m, tier, add_bench, open_mod, close_mod):
+    family_degenerate(m, tier, add_bench, open_mod, close_mod)
     family_narrow(m, tier, add_bench, open_mod, close_mod)
     family_pairs(m, tier, add_bench, open_mod, close_mod)
     family_alloc(m, tier, add_bench, open_mod, close_mod)
